@@ -337,6 +337,40 @@ def bake_sweep(ck, dialect, n):
                                                  "unbaked": sum(1 for r in rows if not r.startswith("baked"))}
 
 
+def builtins_sweep(ck, dialect):
+    """Every WGSL builtin function x operand shape with run-time operands: the emitted text must be readable and every function
+    it calls must exist in the text or in the target language."""
+    sub = "cbuiltins-" + dialect
+    out = ck.harness("cbuiltins", 0, extra_args=[dialect], timeout=900, subdir=sub)
+    if out is None:
+        return
+    rows = common.read_lines(os.path.join(out, "rows.txt")) if os.path.exists(os.path.join(out, "rows.txt")) else []
+    if not rows:
+        ck.tie_broken("no-cases", "the harness produced no builtin probe for " + dialect, "")
+        return
+    srcs = common.read_lines(os.path.join(out, "src.txt"))
+    texts = common.read_lines(os.path.join(out, "text.txt"))
+    stat = {}
+    seen = set()
+    for r, s, t in zip(rows, srcs, texts):
+        head = r.split(" | ")[0]
+        ck.case(sub + r, nontrivial=True)
+        k = head.split(" ")[0]
+        stat[k] = stat.get(k, 0) + 1
+        if k == "ok":
+            continue
+        cls = re.sub(r"[0-9]+", "N", head)[:80]
+        if cls in seen:
+            continue
+        seen.add(cls)
+        fid = find_known(ck, dialect, "", "builtin:" + r, cls)
+        ck.violation({"kind": dialect + "-builtin-" + ("calls-missing-function" if k == "missing" else k), "finding": fid, "probe": r,
+                      "wgsl": unq(s[1:-1]), "emitted": unq(t[1:-1])[:5000],
+                      "how": "the text emitted for a WGSL builtin function calls a function that neither the text nor the target language defines, "
+                             "is unreadable, or the back end / front end refused the valid program"}, found_input=True)
+    ck.extra.setdefault("builtin_probes", {})[sub] = stat
+
+
 def glslfold_tie(ck):
     """Tie of Naga.Model.GlslFold (Props/GlslFold.fold_sound) with the real GLSL writer: on every constant-fold probe the
     writer's decision (literal or expression) and the literal's value, read from the emitted text by the independent parser,
@@ -396,6 +430,7 @@ def run(ck, dialect, prop_module, glsl_ub_excluded=False):
         # exhaustive small scope: every statement tree of at most 3 (thorough: 4) nodes
         flow_sweep(ck, dialect, 0, enum_size={"quick": 3, "thorough": 4}.get(ck.tier, 3))
     bake_sweep(ck, dialect, {"quick": 200, "thorough": 5000}.get(ck.tier, 200))
+    builtins_sweep(ck, dialect)
     if dialect == "glsl":
         glslfold_tie(ck)
     sweep(ck, dialect, "csem", n, glsl_ub_excluded)
